@@ -3748,7 +3748,8 @@ namespace bloch::runtime {
             assign(assignExpr->name, v);
             // the value of 'x = e' is x: it has the static class of the slot, as the analyser
             // types it ('k.o(x = new Dog())' with 'Animal x' is a call with an Animal)
-            if (v.type == Value::Type::Object)
+            // ... and 'long x; (x = 100000) * 100000' is long arithmetic
+            if (v.type == Value::Type::Object || v.type == Value::Type::Int)
                 return lookup(assignExpr->name);
             return v;
         } else if (auto memAssign = dynamic_cast<MemberAssignmentExpression*>(e)) {
@@ -3764,15 +3765,20 @@ namespace bloch::runtime {
                         ? findInstanceField(obj.objectValue->cls, memAssign->member)
                         : nullptr;
                 if (instField) {
+                    // the value of 'o.f = v' is what the field now holds (an int is a long in a
+                    // long field)
+                    rhs = asDeclared(rhs, instField->type);
                     if (instField->offset < obj.objectValue->fields.size())
-                        obj.objectValue->fields[instField->offset] = asDeclared(rhs, instField->type);
+                        obj.objectValue->fields[instField->offset] = rhs;
                 } else {
                     auto [staticField, owner] =
                         obj.objectValue->cls
                             ? staticFieldWithOwner(obj.objectValue->cls, memAssign->member)
                             : std::pair<RuntimeField*, RuntimeClass*>{nullptr, nullptr};
-                    if (staticField && owner && staticField->offset < owner->staticStorage.size())
-                        owner->staticStorage[staticField->offset] = asDeclared(rhs, staticField->type);
+                    if (staticField && owner && staticField->offset < owner->staticStorage.size()) {
+                        rhs = asDeclared(rhs, staticField->type);
+                        owner->staticStorage[staticField->offset] = rhs;
+                    }
                 }
             } else if (obj.type == Value::Type::ClassRef && obj.classRef) {
                 // 'super.f = v' writes the inherited instance field of the current object
@@ -3782,12 +3788,15 @@ namespace bloch::runtime {
                 RuntimeField* inherited =
                     self ? findInstanceField(obj.classRef, memAssign->member) : nullptr;
                 if (inherited && inherited->offset < self->fields.size()) {
-                    self->fields[inherited->offset] = asDeclared(rhs, inherited->type);
+                    rhs = asDeclared(rhs, inherited->type);
+                    self->fields[inherited->offset] = rhs;
                     return rhs;
                 }
                 auto [field, owner] = staticFieldWithOwner(obj.classRef, memAssign->member);
-                if (field && owner && field->offset < owner->staticStorage.size())
-                    owner->staticStorage[field->offset] = asDeclared(rhs, field->type);
+                if (field && owner && field->offset < owner->staticStorage.size()) {
+                    rhs = asDeclared(rhs, field->type);
+                    owner->staticStorage[field->offset] = rhs;
+                }
             }
             return rhs;
         } else if (auto aassign = dynamic_cast<ArrayAssignmentExpression*>(e)) {
@@ -3838,9 +3847,12 @@ namespace bloch::runtime {
                                              std::to_string(arr.longArray.size()));
                     if (rhs.type == Value::Type::Long)
                         arr.longArray[i] = rhs.longValue;
-                    else if (rhs.type == Value::Type::Int)
+                    else if (rhs.type == Value::Type::Int) {
                         arr.longArray[i] = rhs.intValue;
-                    else if (rhs.type == Value::Type::Bit)
+                        // the value of 'a[i] = v' is the element: a long
+                        rhs.type = Value::Type::Long;
+                        rhs.longValue = arr.longArray[i];
+                    } else if (rhs.type == Value::Type::Bit)
                         arr.longArray[i] = rhs.bitValue;
                     else if (rhs.type == Value::Type::Float)
                         arr.longArray[i] = static_cast<std::int64_t>(rhs.floatValue);
